@@ -326,6 +326,77 @@ let run_adapt_case dk p1 p2 script =
 let run_case (fields : string list) : string =
   match fields with
   | "adapt" :: dk :: p1 :: p2 :: script :: _ -> run_adapt_case dk p1 p2 script
+
+(* ---------- Shadowsocks UDP (Model/SsUdp.v); case format: harness/src/t1_ssudp.rs ---------- *)
+let users_of s = if s = "none" then None else Some (List.map (fun u ->
+  match String.split_on_char ':' u with [h; k] -> { u_hash = unhex h; u_key = unhex k } | _ -> failwith "user") (csv s))
+let uctx_of kind mode key ikeys users =
+  { uc_kind = kind_of kind; uc_mode = (if mode = "client" then Client else Server); uc_key = unhex key;
+    uc_ikeys = List.map unhex (csv ikeys); uc_users = users_of users }
+let usess_str (s : usess) =
+  Printf.sprintf "c=%s s=%s p=%s u=%s" (hex_of_n s.us_csid) (hex_of_n s.us_ssid) (hex_of_n s.us_pid)
+    (match s.us_user with Some u -> hx u.u_hash | None -> "-")
+let show_udec = function
+  | Ok None -> "NONE"
+  | Ok (Some ((p, a), s)) -> Printf.sprintf "OK %s %s %s" (hx p) (addr_str a) (usess_str s)
+  | Err e -> "ERR " ^ string_of_err e
+  | Panic -> "PANIC"
+let rec take_l n l = if n = 0 then [] else match l with [] -> [] | x :: t -> x :: take_l (n-1) t
+let after_arrow fields = let rec go = function [] -> [] | "=>" :: t -> t | _ :: t -> go t in go fields
+(* the encoder's random part as found in the implementation's own output: legacy salt = first N bytes,
+   XChaCha nonce = first 24 bytes, AES 2022 kinds have none *)
+let rnd_of_wire kind (w : n list) =
+  match kind_of kind with
+  | K_A128 -> take_l 16 w | K_A256 | K_CC20 -> take_l 32 w
+  | K22_A128 | K22_A256 -> [] | K22_CC8 | K22_CC20 -> take_l 24 w
+let run_ssudp (fields : string list) : string =
+  match fields with
+  | "dec" :: kind :: mode :: key :: ikeys :: users :: now :: dgram :: _ ->
+    show_udec (ssu_session_decode prims (uctx_of kind mode key ikeys users) (n_of_int (int_of_string now)) (unhex dgram))
+  | "rt" :: kind :: encmode :: _ekey :: _eikeys :: _euser :: dkey :: dusers :: _xuser :: now :: _csid :: _ssid :: _pid :: _addr :: _payload :: rest ->
+    (match after_arrow rest with
+     | w :: _ when String.length w > 0 && w.[0] <> 'E' && w.[0] <> 'P' ->
+       let dmode = if encmode = "client" then "server" else "client" in
+       show_udec (ssu_session_decode prims (uctx_of kind dmode dkey "-" dusers) (n_of_int (int_of_string now)) (unhex w))
+     | w :: _ -> "ENCODE-FAILED " ^ w
+     | [] -> "NO-WIRE")
+  | "enc" :: kind :: mode :: key :: ikeys :: user :: now :: csid :: ssid :: pid :: addr :: payload :: rest ->
+    let wire = (match after_arrow rest with r :: _ when String.length r > 3 && String.sub r 0 3 = "OK " -> unhex (String.sub r 3 (String.length r - 3)) | _ -> []) in
+    let cx = uctx_of kind mode key ikeys "none" in
+    let s = { us_csid = n_of_hex csid; us_ssid = n_of_hex ssid; us_pid = n_of_hex pid;
+              us_user = (match String.split_on_char ':' user with [h; k] -> Some { u_hash = unhex h; u_key = unhex k } | _ -> None) } in
+    show_res hx (ssu_encode prims cx (n_of_int (int_of_string now)) (rnd_of_wire kind wire) [] s (parse_addr addr) (unhex payload))
+  | "dg" :: kind :: key :: ikeys :: rp :: now :: ops :: _ ->
+    let cx = uctx_of kind "client" key ikeys "none" in
+    let rp = (rp = "1") and now = n_of_int (int_of_string now) in
+    let st = ref (cstate_new N0) and dead = ref false in
+    let outs = List.filter_map (fun op ->
+      if op = "" then None else if !dead then Some "SKIP" else
+      let c = op.[0] and arg = String.sub op 1 (String.length op - 1) in
+      match c with
+      | 'D' ->
+        (match client_dgram_decode prims cx rp now !st (unhex arg) with
+         | Ok (st', None) -> st := st'; Some "NONE"
+         | Ok (st', Some (p, a)) -> st := st'; Some (Printf.sprintf "ITEM %s %s" (hx p) (addr_str a))
+         | Err e -> Some ("ERR " ^ string_of_err e)         (* UdpFramed: the error is reported, the codec lives on *)
+         | Panic -> dead := true; Some "PANIC")
+      | _ ->
+        (match String.split_on_char ',' arg with
+         | [a; p] ->
+           let rnd = List.init 32 (fun _ -> N0) in
+           let rnd = (match kind_of kind with K_A128 -> take_l 16 rnd | K22_CC8 | K22_CC20 -> take_l 24 rnd | _ -> rnd) in
+           let (st', r) = client_dgram_encode prims cx now rnd [] !st (parse_addr a) (unhex p) in
+           st := st';
+           (match r with
+            | Ok _ -> Some (if is_2022 (kind_of kind) then "OK p=" ^ hex_of_n st'.cs_sess.us_pid else "OK")
+            | Err e -> Some ("ERR " ^ string_of_err e) | Panic -> dead := true; Some "PANIC")
+         | _ -> failwith "dg E")) (String.split_on_char ';' ops) in
+    String.concat " | " outs
+  | _ -> "BAD-SSUDP-CASE"
+
+let run_case (fields : string list) : string =
+  match fields with
+  | "ssudp" :: rest -> run_ssudp rest
   | "vmbody" :: opt :: sec :: role :: sess :: ops :: _ -> run_vmbody opt sec role sess ops
   | "vmsrv" :: now :: users :: ops :: _ -> run_vmsrv now users ops
   | "vmcli" :: uuid :: opt :: sec :: cmd :: addr :: sess :: _now :: ops :: _ -> run_vmcli uuid opt sec cmd addr sess ops
